@@ -1062,6 +1062,58 @@ pub fn run_c11(ctx: &mut Ctx) {
         }
         ctx.count("generated_name_bindings_compared", compared);
     }
+    // a built-in name that the module also declares as an item of its own (a type, an enum, an
+    // EXTERN type): the bare name still means the built-in (rule 2 before rule 3), so the emitted
+    // reference must be one that means the built-in inside the generated module too
+    {
+        let cases: Vec<(&str, &str)> = vec![
+            ("extern-type", "#[size(16), align(4)] extern type bool;\n#[size(8), align(8)] extern type u16;\n#[align(4)] pub type Flags { pub a: bool, pub b: bool, pub c: u16, pub arr: [u16; 2], }\nimpl Flags { #[address(0x1000)] pub fn set(&self, v: bool, w: *mut u16) -> bool; }\n#[address(0x7000)] pub extern g_flag: bool;"),
+            ("type", "#[align(4)] pub type bool { pub x: u32, pub y: u32, }\n#[align(4)] pub type Flags { pub a: bool, pub b: bool, pub c: u16, }"),
+            ("enum", "pub enum u16: u32 { A, }\n#[align(4)] pub type Flags { pub a: bool, pub b: bool, pub c: u16, pub arr: [u16; 2], }"),
+        ];
+        for (kind, text) in cases {
+            for ptrw in [4usize, 8] {
+                ctx.eval();
+                let m = pyxis::parser::parse_str(text).expect("C11 built-in shadow case parses");
+                let mods: Mods = vec![(ItemPath::from("kn_shadow"), m)];
+                ctx.nontrivial(fnv(format!("builtin-shadow{kind}{ptrw}").as_bytes()));
+                match drive::build_modules(&mods, ptrw, Opts::default()).result {
+                    Err(e) if e.stage == Stage::Panic => ctx.violation("C11/panic", &e.msg, case_json(&mods, ptrw)),
+                    Err(e) => ctx.violation("C11/rejected-bound-name", &format!("built-in shadowed by {kind}: {}", crate::verdict::one_line(&e.msg, 200)), case_json(&mods, ptrw)),
+                    Ok(ok) => {
+                        let text = ok.files.get("kn_shadow.rs").cloned().unwrap_or_default();
+                        let flat: String = text.split_whitespace().collect::<Vec<_>>().join(" ");
+                        // layout uses the built-in sizes: a, b one byte each, c at 2
+                        let size = ok.state.type_registry().get(&ItemPath::from("kn_shadow::Flags")).and_then(|i| i.size());
+                        let want_size = match kind {
+                            "type" => Some(4),
+                            _ => Some(8),
+                        };
+                        if size != want_size {
+                            ctx.violation("C11/layout-uses-other-definition", &format!("built-in shadowed by {kind}: `Flags` resolved to size {size:?}, the built-ins give {want_size:?}"), case_json(&mods, ptrw));
+                        }
+                        let shadowed: &[&str] = match kind {
+                            "extern-type" => &["bool", "u16"],
+                            "type" => &["bool"],
+                            _ => &["u16"],
+                        };
+                        for name in shadowed {
+                            // every mention of the built-in inside Flags (and its functions) must be the full path
+                            let bare_field = flat.contains(&format!(": {name},")) || flat.contains(&format!(": {name} ,")) || flat.contains(&format!("const {name},")) || flat.contains(&format!("[{name};")) || flat.contains(&format!("mut {name}")) && !flat.contains(&format!("mut ::core::primitive::{name}")) && *name != "bool";
+                            if bare_field || !flat.contains(&format!("::core::primitive::{name}")) {
+                                ctx.violation(
+                                    "C11/built-in-reference-means-the-module's-own-item",
+                                    &format!("the module declares its own `{name}` ({kind}); a reference to the built-in `{name}` is emitted as the bare name, which inside the generated module is that item"),
+                                    case_json(&mods, ptrw),
+                                );
+                                break;
+                            }
+                        }
+                    }
+                }
+            }
+        }
+    }
     let results: Vec<(BindCase, Vec<(String, String)>)> = selected.into_par_iter().map(|c| { let b = judge_bind(&c); (c, b) }).collect();
     let mut sampled = 0;
     for (c, bad) in results {
